@@ -107,7 +107,7 @@ DRV_OP(fm_stat) {
 
 // fm_prep <what> …   put something at the path without the library (every handle is dropped first)
 //   missing | empty | junk <n> | dir | plainh5 | trunc <percent> | hdr <version> <format> <id>
-//   | rmgroup <data|metadata> | rmattr <created_at|updated_at|…>
+//   | rmgroup <data|metadata> | rmattr <created_at|updated_at|…> | settime <created_at|updated_at> <seconds>
 DRV_OP(fm_prep) {
     if (a.size() < 2) throw ProtoError("fm_prep arity");
     forget();
@@ -158,6 +158,11 @@ DRV_OP(fm_prep) {
     } else if (what == "rmgroup") {
         if (a.size() != 3) { H5Gclose(root); H5Fclose(h); throw ProtoError("fm_prep rmgroup arity"); }
         if (H5Lexists(root, a[2].c_str(), H5P_DEFAULT) > 0) H5Ldelete(root, a[2].c_str(), H5P_DEFAULT);
+    } else if (what == "settime") {
+        // an old time stamp, written the way the library writes it (a later open must not refresh it)
+        if (a.size() != 4) { H5Gclose(root); H5Fclose(h); throw ProtoError("fm_prep settime arity"); }
+        if (H5Aexists(root, a[2].c_str()) > 0) H5Adelete(root, a[2].c_str());
+        rawStrAttr(root, a[2].c_str(), nix::util::timeToStr((time_t) tokInt(a[3])));
     } else if (what == "rmattr") {
         if (a.size() != 3) { H5Gclose(root); H5Fclose(h); throw ProtoError("fm_prep rmattr arity"); }
         if (H5Aexists(root, a[2].c_str()) > 0) H5Adelete(root, a[2].c_str());
@@ -186,7 +191,7 @@ DRV_OP(fm_close) {
     return "ok";
 }
 
-// fm_snap => ok <size> <fnv of bytes> <file id> <created_at> <format> <version> <blockCount> <sectionCount> <records> <fnv of the entity dump>
+// fm_snap => ok <size> <fnv of bytes> <file id> <created_at> <updated_at> <format> <version> <blockCount> <sectionCount> <records> <fnv of the entity dump>
 //            (file part "~" when no file is open).  The entity dump is the store family's canonical dump without its file record.
 DRV_OP(fm_snap) {
     std::string s = statTok();
@@ -203,7 +208,7 @@ DRV_OP(fm_snap) {
         for (size_t pos = 0; (pos = tree.find("E ", pos)) != std::string::npos; pos += 2) if (pos == 0 || tree.compare(pos - 3, 3, " | ") == 0) nrec++;
         nix::File &f = st.file;
         std::vector<std::string> vl; for (int v : f.version()) vl.push_back(std::to_string(v));
-        return s + " " + idTok(f.id()) + " " + std::to_string((long long) f.createdAt()) + " " + hexStr(f.format()) + " " + listTok(vl) + " " +
+        return s + " " + idTok(f.id()) + " " + std::to_string((long long) f.createdAt()) + " " + std::to_string((long long) f.updatedAt()) + " " + hexStr(f.format()) + " " + listTok(vl) + " " +
                std::to_string(f.blockCount()) + " " + std::to_string(f.sectionCount()) + " " + std::to_string(nrec) + " " + hex64(fnv1(tree.data(), tree.size()));
     });
 }
